@@ -150,8 +150,8 @@ CLAIMED.update({
               "k_alt_partition_approx through the checker up to m=25; k_alternative_partition_brut_force vs the reference for every k "
               "(exhaustive m<=5, fixed case set m=6..9).",
               "Deepening: the repaired brute-force DFS is mirrored and proved sound for every size (bf_sound, bf_none_when_infeasible, "
-              "bf_some_bounds); its minimality is proved by kernel evaluation on small domains only (bf_complete_min_partial_small) and otherwise "
-              "compared with the proved reference for every k; the approx loop is mirrored and proved valid (approx_valid). A non-minimality "
+              "bf_some_bounds) and minimum / complete for every size (bf_complete_min, bf_algo_ok: the mirror meets the brute-force contract); the code is "
+              "compared with the mirror and with the proved reference for every k; the approx loop is mirrored and proved valid (approx_valid). A non-minimality "
               "defect of the brute force found by this check was repaired (175f7ec); no open finding.", "C18"),
     "C19": _r("Coq theorems: embedding checker over exact rationals equivalent to 'every voter ranks by strictly increasing distance', "
               "Euclidean => single-peaked and single-crossing (necessary conditions), and an exact decision procedure "
